@@ -7,7 +7,7 @@ import conc
 import driver
 
 PROPERTIES_FILE = "Properties/Properties_C10.v"
-COQ_DEPS = ["Proofs/Apply_proofs.vo", "Proofs/ApplyR_proofs.vo", "Proofs/ApplyRoot_proofs.vo"]
+COQ_DEPS = ["Proofs/Apply_proofs.vo", "Proofs/Apply_measure.vo", "Proofs/ApplyR_proofs.vo", "Proofs/ApplyRoot_proofs.vo"]
 GEN_MODULES = ["Gen_apply", "Gen_rootq"]
 LEVEL = "proof"
 TRUSTED = [
@@ -38,9 +38,18 @@ TRUSTED = [
     "a wrong order can only make a replay fail; the executable invariant inv_b (C10_inv_b_reach) is evaluated on the states passed",
     "the width theorem is about one apply on an otherwise quiescent chain (no concurrent change of the dq_state words between "
     "the reservation and the relinquish); dispatch_sync_f's own width unit is part of the state the theorem quantifies over",
-    "kernel: futex_wait may return spuriously, FUTEX_WAKE wakes the sleeper; fair scheduling for the termination clause",
+    "kernel: futex_wait may return spuriously (each such return costs at most 3 more steps, C10_every_step_pays), FUTEX_WAKE "
+    "wakes the sleeper; a caller asleep in futex_wait is blocked until then; no CAS loop occurs in the protocol, so no "
+    "assumption about repeated CAS failure is made",
+    "nested applies: no model of two records at once; each record is an instance of the one-record model with an opaque work "
+    "function (see the header of Properties_C10.v for which theorem covers which part of the nested case)",
 ]
-ASSUMPTIONS = ["iterations + thread count < 2^64 (da_index cannot wrap before 2^64 callouts have run)",
+ASSUMPTIONS = ["client-side bound: iterations <= 2^64 - 2^31, which with the code's own thread count (C10_path_valid_params) gives "
+               "iterations + da_thr_cnt < 2^64, the explicit premise valid_params of every protocol theorem; for larger n the size_t "
+               "da_index would wrap after more than 1.8e19 callouts have run (not reachable, not demonstrable on the library)",
+               "termination is a bound on the steps of the model's executions (C10_execution_bound: Phi = 3n + 6T + 5 initially, "
+               "+3 per spurious futex_wait return); that every participant which can step eventually does is the scheduler's "
+               "fairness, and that the work function returns is the client's",
                "Linux configuration: thread event = futex word (HAVE_FUTEX), non-introspection build (da_dc on the caller's stack)"]
 
 INTERVAL = 1 << 41
@@ -356,6 +365,8 @@ def analyse_stress(text, label):
         elif f[0] == "HANG":
             hang = l
             fails.append({"key": "%s:hang" % label, "label": label, "what": "stress: dispatch_apply_f did not return: " + l})
+        elif f[0] == "A" and len(f) >= 5:
+            stats.setdefault("_depths", {})[int(f[1])] = int(f[4])
         elif f[0] in ("S", "K"):
             for x in f[1:]:
                 k, v = x.split("=")
@@ -688,6 +699,8 @@ def global_replay(tag, allparts, budget):
         st["rounds_with_sleeping_caller_replayed"] += 1 if 32 in ks else 0
         st["rounds_with_slow_wake_replayed"] += 1 if 34 in ks else 0
         st["rounds_ewouldblock_replayed"] += 1 if any(e.kind == 33 and e.b == 11 for p in rd["parts"] for e in p["events"]) else 0
+        dp = next((p.get("depth") for p in rd["parts"] if p["wait"]), None)
+        st["nested_rounds_replayed"] = st.get("nested_rounds_replayed", 0) + (1 if dp else 0)
         st["max_participants_in_a_replayed_round"] = max(st["max_participants_in_a_replayed_round"], len(rd["parts"]))
     return mism, st
 
@@ -729,11 +742,13 @@ def correspond(ctx):
         if r.returncode not in (0, 3) and not f:
             mism.append({"what": "stress harness died rc=%s" % r.returncode, "detail": (r.stderr or "")[-800:] + r.stdout[-300:]})
         fails += f
+        depths = st.pop("_depths", {})
         for k, v in st.items():
             dist[k] = dist.get(k, 0) + v
         ps = participations(per)
         for p in ps:
             p["seed"] = seed
+            p["depth"] = depths.get(p["aid"]) if p["aid"] is not None else None
         allparts += ps
     gm, gst = global_replay("c10_replay", allparts, 40000 if quick else 300000)
     mism += gm
